@@ -728,10 +728,23 @@ class Sim:
                     faults[key(e)] = dict(fail=code, fail_touch=touch)
         self.last_model_before = self.model.clone()
         self.stats['builds'] += 1
-        res = self.invoke(targets, j=op['j'], k=op['k'], sched=op['sched'], faults=faults)
+        mid = None
+        if op.get('mid') and not faults and type(self) is Sim:
+            # only files that no restat / generator statement reads: those record their output's own time, and the
+            # property exempts them from the "edited while running" clause
+            ph = models.phony_outs(g)
+            exempt = set(r for e in self.cmd_edges() if models.is_restat(e) or e['generator'] for r in models.true_reads(g, e, ph))
+            cand = [s for s in g['srcs'] if s not in exempt and not s.startswith('ddsrc')]
+            if cand:
+                s_ = cand[op['mid'][1] % len(cand)]
+                mid = [dict(at=op['mid'][0], path=s_, content=self.new_content(s_, 5))]
+                self.labels.add('mid_build_edit')
+            else:
+                self.stats['mid_edit_skipped_exempt'] = self.stats.get('mid_edit_skipped_exempt', 0) + 1
+        res = self.invoke(targets, j=op['j'], k=op['k'], sched=op['sched'], faults=faults, mid_edits=mid)
         if res is None or self.stop:
             return
-        ok = res['status'] == 0 and not faults
+        ok = res['status'] == 0 and not faults and not self.pending_mid_edit
         if ok and self.check.get('converge', True) and not any(f['kind'] for f in self.findings if f['prop'] in ('C01', 'C03') and not f['known']):
             # C02: the same invocation again must start nothing
             always_dirty = self.has_always_dirty(targets)
